@@ -87,15 +87,21 @@ type Result struct {
 	RestartOK   int   // 1 restarted future ran, 0 it did not, -1 not tried
 	RestartLag  int64
 	PreWaitNs   int64
+	NotQuiet    string // non-empty: the package did not become quiescent before this scenario (it was not run)
 	DefaultIdle bool
 }
 
 // events that arrive after their scenario was sealed
 var lateMu sync.Mutex
 var LateEvents []string
+var LateScenario *Scenario // the first scenario that had a late event (replay candidate)
 
-func noteLate(s string) {
+func noteLate(sc Scenario, s string) {
 	lateMu.Lock()
+	if LateScenario == nil {
+		c := sc
+		LateScenario = &c
+	}
 	LateEvents = append(LateEvents, s)
 	lateMu.Unlock()
 }
@@ -152,7 +158,7 @@ func (r *runner) callback(i int, a Act) func() {
 	return func() {
 		s := r.now()
 		if atomic.LoadInt32(&r.sealed) != 0 {
-			noteLate(fmt.Sprintf("scenario %d future %d started after the scenario was closed", r.sc.ID, i))
+			noteLate(r.sc, fmt.Sprintf("scenario %d (%s) future %d started after the scenario was closed", r.sc.ID, r.sc.Family, i))
 			return
 		}
 		atomic.AddInt64(&r.active, 1)
@@ -252,7 +258,11 @@ func (r *runner) goroutine(g int, start chan struct{}, wg *sync.WaitGroup) {
 func Run(sc Scenario, seed uint64) Result {
 	res := Result{WindDownNs: -1, RestartOK: -1}
 	t := time.Now()
-	Quiesce(20 * time.Second)
+	if !Quiesce(20 * time.Second) {
+		w, tk, p := timeout.VerifSnapshot()
+		res.NotQuiet = fmt.Sprintf("after 20 s with a 2 ms idle timeout: %d worker(s), %d token(s), %d pending future(s)", w, tk, len(p))
+		return res
+	}
 	res.PreWaitNs = int64(time.Since(t))
 	_, _, res.WakeCap = timeout.VerifPool()
 	idle := time.Duration(sc.IdleUs) * time.Microsecond
